@@ -227,6 +227,12 @@ def _run_history(fi, holder, mode, root, target, steps_in):
     return {"steps": steps, "texts": texts}
 
 
+def _is_install(name):
+    """the op that installs the new content over the target, however it is spelled"""
+    return name is not None and (name == "replace" or name.startswith("UNEXPECTED:replace") or name.startswith("UNEXPECTED:rename")
+                                 or name.startswith("UNEXPECTED:shutil.move"))
+
+
 def _drive(ctl, bits):
     """Advance the two writers along a merge of their 6-step sequences (False = A moves).
     step 0 read (all file ops before the WRITE FILE block), 1 compare (no file op), 2 write temp (mkdir .. close),
@@ -250,7 +256,7 @@ def _drive(ctl, bits):
                 log.append(who + ":" + ctl.pending(who))
                 ctl.grant(who)
         elif k == 2:
-            while ctl.pending(who) not in (None, "open_read:target", "replace"):
+            while ctl.pending(who) not in (None, "open_read:target") and not _is_install(ctl.pending(who)):
                 log.append(who + ":" + ctl.pending(who))
                 ctl.grant(who)
         elif k == 3:
@@ -258,7 +264,7 @@ def _drive(ctl, bits):
                 log.append(who + ":" + ctl.pending(who))
                 ctl.grant(who)
         elif k == 4:
-            if ctl.pending(who) != "replace":
+            if not _is_install(ctl.pending(who)):
                 finish(who)
         elif k == 5:
             finish(who)
@@ -591,7 +597,7 @@ def judge_hist(init, steps, rec, prior=()):
         if non_altering(st, r):
             earlier.append(f"step {i} {st['op']} -> {env['status']} {env.get('code', '')}".strip())
         if r.get("unexpected"):
-            out.append((f"non-atomic-op at step {i}: {r['unexpected']}", None))
+            loose.append(f"step {i} used an operation outside the modelled protocol: {r['unexpected']}")
         # (a) compare-and-swap
         if r["base"] and cur is not None and sha(cur) != r["base"]:
             if env["status"] == "success":
@@ -621,6 +627,75 @@ def judge_hist(init, steps, rec, prior=()):
             kind = "dry-changed" if dry and env["status"] != "error" else "error-changed"
             out.append((f"{kind}: step {i} ({st['op']}, status={env['status']} {env.get('code', '')}) changed the file system: {r.get('diff')}", fid))
     return out, loose
+
+
+def _session_fails(sess, instance, key):
+    """does the session still produce an unattributed property failure of class `key`?  -> (bool, observed of the last history)"""
+    inits = [INITS[n] if isinstance(n, str) else n for n, _ in sess]
+    code, recs, err = _run_session([(ini, st) for ini, (_, st) in zip(inits, sess)], instance)
+    if recs is None:
+        return False, None
+    prior = []
+    hit = False
+    for (n, steps), init, rec in zip(sess, inits, recs):
+        props, _ = judge_hist(init, steps, rec, prior)
+        hit = hit or any(f is None and w.split(":")[0] == key for w, f in props)
+        for k, (st, r) in enumerate(zip(steps, rec["steps"])):
+            if non_altering(st, r):
+                prior.append(f"step {k} {st['op']} -> {r['env']['status']}")
+    return hit, [{"env": r["env"], "base": r["base"], "same": r["same"]} for r in recs[-1]["steps"]]
+
+
+def judge_hist_of(sess, instance):
+    """[(what, finding)] of the LAST history of a (re-run) session"""
+    inits = [INITS[n] if isinstance(n, str) else n for n, _ in sess]
+    code, recs, err = _run_session([(ini, st) for ini, (_, st) in zip(inits, sess)], instance)
+    if recs is None:
+        return []
+    prior = []
+    props = []
+    for (n, steps), init, rec in zip(sess, inits, recs):
+        props, _ = judge_hist(init, steps, rec, prior)
+        for k, (st, r) in enumerate(zip(steps, rec["steps"])):
+            if non_altering(st, r):
+                prior.append(f"step {k} {st['op']} -> {r['env']['status']} {r['env'].get('code', '')}".strip())
+    return props
+
+
+def _shrink(sess, instance, key, budget=60):
+    """greedy structural shrinking of a failing session: drop whole histories, then single steps (re-running the real
+    implementation each time); base kinds are symbolic (current/stale/..), so a shortened history stays meaningful"""
+    cur = [(n, list(st)) for n, st in sess]
+    runs = 0
+    changed = True
+    while changed and runs < budget:
+        changed = False
+        for i in range(len(cur) - 1):            # never drop the failing (last) history as a whole
+            cand = cur[:i] + cur[i + 1:]
+            runs += 1
+            if _session_fails(cand, instance, key)[0]:
+                cur, changed = cand, True
+                break
+        if changed:
+            continue
+        for hi in range(len(cur)):
+            for si in range(len(cur[hi][1])):
+                if len(cur[hi][1]) == 1 and hi == len(cur) - 1:
+                    continue
+                st = cur[hi][1][:si] + cur[hi][1][si + 1:]
+                cand = cur[:hi] + ([(cur[hi][0], st)] if st else []) + cur[hi + 1:]
+                if not cand:
+                    continue
+                runs += 1
+                if _session_fails(cand, instance, key)[0]:
+                    cur, changed = cand, True
+                    break
+                if runs >= budget:
+                    break
+            if changed or runs >= budget:
+                break
+    ok, obs = _session_fails(cur, instance, key)
+    return (cur, obs) if ok else (None, None)
 
 
 def _hist_chunk(task):
@@ -666,6 +741,16 @@ def _hist_chunk(task):
                         h("cas_case", "match" if sha(rec["texts"][r["cur"]]) == r["base"] else "mismatch")
             props, loose = judge_hist(init, steps, rec, prior)
             for what, fid in props:
+                if fid is None and summ.get("shrunk", 0) < 2:
+                    # minimise the replay (at most two per chunk): the case reported is the shrunk session
+                    summ["shrunk"] = summ.get("shrunk", 0) + 1
+                    small, obs = _shrink(sess[: hi + 1], instance, what.split(":")[0])
+                    if small is not None:
+                        scase = {"instance": instance, "session": [{"init": n, "steps": st} for n, st in small], "observed": obs,
+                                 "shrunk_from_histories": hi + 1}
+                        w2 = [w for w, f in judge_hist_of(small, instance) if f is None and w.split(":")[0] == what.split(":")[0]]
+                        summ["prop"].append((scase, w2[0] if w2 else what, fid))
+                        continue
                 summ["prop"].append((case, what, fid))
             for what in loose:
                 summ["corr"].append((case, what))
@@ -742,7 +827,10 @@ WRITER_CONFIGS = {
     "changes/content": ({"api": "execute", "args": {"changes": {"W": "writer A"}}}, {"api": "execute", "args": {"content": WB}}),
     "atomic/atomic": ({"api": "atomic", "args": {"content": WA}}, {"api": "atomic", "args": {"content": WB}}),
     "normalize/atomic": ({"api": "execute", "args": {}}, {"api": "atomic", "args": {"content": WB}}),
+    # two `octave write` processes (the click runner swaps sys.stdout, so this configuration is run with PROCESSES only)
+    "cli/cli": ({"api": "cli", "args": {"content": WA}}, {"api": "cli", "args": {"changes": {"W": "writer B"}}}),
 }
+THREAD_CONFIGS = ("content/content", "changes/content", "atomic/atomic", "normalize/atomic")
 SCHED_INIT = {"target": "d/f.oct.md", "fs": [("d", "D", "", 0), ("d/f.oct.md", "F", NONCANON, 0o640)]}
 
 
@@ -992,7 +1080,7 @@ def _run(ctx, pool):
     for n, c in sched_corpus:
         stasks.append((c.get("config", "content/content"), [x == "1" for x in c["bits"]], bool(c.get("procs"))))
     n_corpus_sched = len(stasks)
-    cfgs = list(WRITER_CONFIGS)
+    cfgs = list(THREAD_CONFIGS)
     if ctx.quick():
         inw = [m for m in merges if in_window(m)]
         outw = [m for m in merges if not in_window(m)]
@@ -1005,6 +1093,8 @@ def _run(ctx, pool):
             stasks.append((cfg, wbits, False))
         for m in rng.sample(outw, 6) + [wbits]:
             stasks.append(("content/content", m, True))
+        for m in rng.sample(inw, 8) + rng.sample(outw, 4) + [wbits]:
+            stasks.append(("cli/cli", m, True))
     else:
         for cfg in cfgs:
             for m in merges:
@@ -1012,6 +1102,7 @@ def _run(ctx, pool):
         for m in merges:
             stasks.append(("content/content", m, True))
             stasks.append(("atomic/atomic", m, True))
+            stasks.append(("cli/cli", m, True))
     sres = pool.map(_sched_task, stasks, chunksize=4)
     canon_of = {"content/content": (WA, WB), "atomic/atomic": (WA, WB)}
     n_both = n_sched = 0
@@ -1050,6 +1141,14 @@ def _run(ctx, pool):
             if not ok(x):
                 if "env" not in x or x["env"].get("code") != "E_HASH":
                     ctx.correspondence_failure(case, f"writer {who} failed with {x} (model: E_HASH)")
+        # whatever the interleaving: the file holds the text of a writer that reported success (its canonical_hash), or, when
+        # nobody succeeded, the old bytes -- never the text of a writer that returned an error, never a mixture
+        fhash = None if r["final"] is None else sha(r["final"])
+        okh = [x["env"]["hash"] for x in (ra, rb) if ok(x)]
+        if (okh and fhash not in okh) or (not okh and fhash != sha(NONCANON)):
+            ctx.property_failure(case, f"two-writers-foreign-content: after both writers finished the file hashes to {str(fhash)[:12]}, "
+                                       f"successful writers returned {[h_[:12] for h_ in okh]} (results A={ra.get('env')}, B={rb.get('env')}): "
+                                       "a writer that returned an error changed the file, or a success did not install its own text")
         if r["listing"] != ["d/f.oct.md", "d/other.txt"]:
             ctx.property_failure(case, f"error-changed: after both writers finished the directory holds {r['listing']} (a failed writer left a file behind)")
         m = model_sched.get(r["bits"])
